@@ -230,13 +230,23 @@ Record ctobs := mkct {
   c_under : nat;     (* Close calls that reached the underlying connection (kind 0) *)
   c_active : Z;      (* active gauge at the end (kinds 1,2) *)
   c_total : nat;     (* total counter (kinds 1,2) *)
-  c_min : nat; c_max : nat  (* OnClose invocations per connection: min and max *)
+  c_min : nat; c_max : nat;  (* OnClose invocations per connection: min and max *)
+  c_pre : bool               (* a layer below the wrapper closed the connection before the first Close *)
 }.
 
-Definition ct_model (closers : nat) : option cst := crun close_uses_once (cinit closers) (csched_seq closers).
+(* canonical schedule; pre: the connection was closed below the wrapper before the first Close *)
+Definition csched (early pre : bool) (n : nat) : list clabel :=
+  if early && pre then crepeat CUnderEarly n
+  else match n with
+       | O => []
+       | S k => if early then [CUnder] ++ crepeat CUnderEarly k ++ [CEnterRun; CFire; CExit] else csched_seq n
+       end.
+Definition ct_model (closers : nat) (pre : bool) : option cst :=
+  crun close_uses_once close_returns_early_on_errclosed (cinit closers pre)
+       (csched close_returns_early_on_errclosed pre closers).
 
 Definition ct_model_ok (c : ctobs) : bool :=
-  match ct_model (c_closers c) with
+  match ct_model (c_closers c) (c_pre c) with
   | Some s =>
       cfinalb s &&
       Nat.eqb (c_onclose c) (c_conns c * fired s) &&
